@@ -13,31 +13,24 @@ import (
 
 // C15: template text is emitted verbatim except for the documented removals.
 //
-// Case {id, fmt, pieces:[{n, k, s, v, w, d}]}: the driver concatenates the source bytes s of
-// the pieces into one template source, builds it as index.<fmt> (with a one-byte partial file
-// p.<fmt> = "R" next to it, for the render piece) and runs it. It logs the
-// pieces as given, the source it built and the bytes that Run wrote (ints). It judges nothing:
-// a build error is logged as outcome "builderr" (Trace_Cut.tla decides what is judged).
-
-type piece struct {
-	N string `json:"n"` // catalogue name (echoed)
-	K string `json:"k"` // kind: text show render stmt comment raw shebang (echoed)
-	S []int  `json:"s"` // source bytes
-	V []int  `json:"v"` // echoed (output of a show / content of a raw block)
-	W int    `json:"w"` // echoed (for raw: number of source bytes before the content)
-	D int    `json:"d"` // echoed (1 opens a block, 2 closes one)
-}
+// Case {id, fmt, names:[catalogue name...], parts:[[byte...]...]}: parts are the source bytes of the
+// pieces (spec/cut/Cut.tla catalogue). The driver concatenates the parts into one template
+// source, builds it as index.<fmt> (with a one-byte partial file p.<fmt> = "R" next to it, for
+// the render piece) and runs it. It logs the piece names as given, the source it built and the
+// bytes that Run wrote (ints). It judges nothing: a build error is logged as outcome "builderr"
+// (Trace_Cut.tla decides what is judged).
 
 type c15Case struct {
-	ID     int     `json:"id"`
-	Fmt    string  `json:"fmt"`
-	Pieces []piece `json:"pieces"`
+	ID    int      `json:"id"`
+	Fmt   string   `json:"fmt"`
+	Names []string `json:"names"`
+	Parts [][]int  `json:"parts"`
 }
 
 func runOne(src []byte, ext string) (outcome string, out []byte, errclass string) {
 	defer func() {
 		if r := recover(); r != nil {
-			outcome, errclass = "hostpanic", fmt.Sprint(r)
+			outcome, errclass = "hostpanic", noDigits(fmt.Sprint(r))
 		}
 	}()
 	fsys := scriggo.Files{"index." + ext: src, "p." + ext: []byte("R")}
@@ -60,28 +53,36 @@ func runOne(src []byte, ext string) (outcome string, out []byte, errclass string
 	return "ok", buf.Bytes(), ""
 }
 
+// noDigits replaces every run of digits with N, so that a panic message names a class of panics.
+func noDigits(s string) string {
+	var b []byte
+	for i := 0; i < len(s); i++ {
+		if '0' <= s[i] && s[i] <= '9' {
+			if len(b) == 0 || b[len(b)-1] != 'N' {
+				b = append(b, 'N')
+			}
+			continue
+		}
+		b = append(b, s[i])
+	}
+	return string(b)
+}
+
 func main() {
 	drv.Main(&drv.Sub{
 		Each: func(raw json.RawMessage, seed int64) []any {
 			var c c15Case
 			drv.Must(json.Unmarshal(raw, &c))
 			var src []byte
-			for i := range c.Pieces {
-				p := &c.Pieces[i]
-				src = append(src, drv.BytesOf(p.S)...)
-				if p.S == nil {
-					p.S = []int{}
-				}
-				if p.V == nil {
-					p.V = []int{}
-				}
+			for _, p := range c.Parts {
+				src = append(src, drv.BytesOf(p)...)
 			}
-			if c.Pieces == nil {
-				c.Pieces = []piece{}
+			if c.Names == nil {
+				c.Names = []string{}
 			}
 			outcome, out, ec := runOne(src, c.Fmt)
 			return []any{map[string]any{
-				"id": c.ID, "fmt": c.Fmt, "pieces": c.Pieces, "src": drv.Ints(src),
+				"id": c.ID, "fmt": c.Fmt, "names": c.Names, "src": drv.Ints(src),
 				"outcome": outcome, "out": drv.Ints(out), "errclass": ec,
 			}}
 		},
